@@ -1,12 +1,17 @@
 package main
 
 import (
+	"bytes"
 	"encoding/json"
 	"errors"
 	"fmt"
 	"html/template"
+	"io"
 	"math"
 	"net/url"
+	"os"
+	"os/exec"
+	"runtime/debug"
 	"strings"
 	"time"
 
@@ -54,6 +59,40 @@ type kEmb struct {
 	Name string
 	Fn   func() string
 }
+
+// value-receiver implementations reached through a nil pointer
+type kHTMLer struct{ s string }
+
+func (k kHTMLer) HTML() template.HTML { return template.HTML(k.s) }
+
+type kIfaceable struct{ v int }
+
+func (k kIfaceable) Interface() interface{} { return k.v }
+
+type kPathable struct{ p string }
+
+func (k kPathable) ToPath() string { return k.p }
+
+// a method promoted from a nil embedded pointer / a nil embedded interface
+type kInnerM struct{}
+
+func (kInnerM) Hello() string { return "inner hello" }
+
+type kOuterPtr struct {
+	*kInnerM
+	Name string
+}
+
+type kOuterIface struct {
+	fmt.Stringer
+	Name string
+}
+
+// a defined type over plush.HelperContext
+type kMyHC plush.HelperContext
+
+// kShared: a slice and a function that shortens it (one pair per case)
+type kShared struct{ xs *[]string }
 
 // kHolder is comparable as a type, but a value holding a slice cannot be hashed
 type kHolder struct{ V interface{} }
@@ -184,6 +223,30 @@ func kindValue(kind string) (interface{}, bool) {
 	case "slice_ptr_struct":
 		s := mk()
 		return []*kStruct{&s, nil}, true
+	case "nilptr_htmler":
+		return (*kHTMLer)(nil), true
+	case "nilptr_interfaceable":
+		return (*kIfaceable)(nil), true
+	case "nilptr_pathable":
+		return (*kPathable)(nil), true
+	case "slice_nilptr_pathable":
+		return []*kPathable{{"/a"}, nil}, true
+	case "struct_promotes_nil_ptr":
+		return kOuterPtr{Name: "o"}, true
+	case "struct_promotes_nil_iface":
+		return kOuterIface{Name: "o"}, true
+	case "func_array3":
+		return func(a [3]int) string { return fmt.Sprint(a) }, true
+	case "func_myhc":
+		return func(x kMyHC) string { return "myhc" }, true
+	case "nil_feeder":
+		return (func(string) (string, error))(nil), true
+	case "func_rerender":
+		return func(help plush.HelperContext) (string, error) {
+			return plush.Render(`<%= for (v) in [1, 2] { %><%= v %><% } %><% let q = 1 %><%= if (q) { %>q<% } %>`, help)
+		}, true
+	case "ptr_slice_shared", "func_shrink_shared":
+		return nil, false // built per case, see c04Run
 	case "float_nan":
 		return math.NaN(), true
 	case "map_float_nan":
@@ -237,6 +300,59 @@ func checkC04(c *Ctx) error {
 	return err
 }
 
+// c04Isolated renders a template in a process of its own (a fault the Go runtime does not let a process
+// survive -- stack exhaustion -- would otherwise take the whole check down).
+func c04Isolated(c *Ctx, kc *kindCase, src string) {
+	c.Eval(kc.Form)
+	c.Rule("isolated")
+	cmd := exec.Command(os.Args[0], "worker", "render1")
+	cmd.Stdin = strings.NewReader(src)
+	var so, se bytes.Buffer
+	cmd.Stdout, cmd.Stderr = &so, &se
+	done := make(chan error, 1)
+	if err := cmd.Start(); err != nil {
+		c.Drift("isolated: could not start the worker")
+		return
+	}
+	go func() { done <- cmd.Wait() }()
+	var werr error
+	select {
+	case werr = <-done:
+	case <-time.After(120 * time.Second):
+		cmd.Process.Kill()
+		c.Fail("hang:"+kc.Form, fmt.Sprintf("%s did not return within 120s (own process)", src), map[string]interface{}{"gen": "GenKinds", "form": kc.Form, "src": kc.Src, "kinds": kc.Kinds, "source_text": src})
+		return
+	}
+	cas := map[string]interface{}{"gen": "GenKinds", "form": kc.Form, "src": kc.Src, "kinds": kc.Kinds, "source_text": src, "stderr": trunc(se.String(), 600), "stdout": trunc(so.String(), 300)}
+	c.Sample(map[string]interface{}{"template": src, "own_process": true, "result": trunc(so.String(), 200), "exit_error": fmt.Sprint(werr)})
+	switch {
+	case werr == nil && strings.HasPrefix(so.String(), "RETURNED"):
+	case strings.Contains(se.String(), "stack overflow") || strings.Contains(se.String(), "goroutine stack exceeds"):
+		c.Fail("fatal:stack-overflow:"+kc.Form, fmt.Sprintf("%s: the rendering process died of stack exhaustion (unbounded recursion)", src), cas)
+	case strings.HasPrefix(so.String(), "PANIC"):
+		c.Fail("panic:"+kc.Form, fmt.Sprintf("%s panicked: %s", src, trunc(so.String(), 200)), cas)
+	default:
+		c.Fail("fatal:"+kc.Form, fmt.Sprintf("%s: the rendering process ended abnormally: %v %s", src, werr, trunc(se.String(), 200)), cas)
+	}
+}
+
+func init() {
+	workers["render1"] = func(args []string) int {
+		b, _ := io.ReadAll(os.Stdin)
+		debug.SetMaxStack(64 << 20) // fail fast
+		func() {
+			defer func() {
+				if r := recover(); r != nil {
+					fmt.Printf("PANIC %v\n", r)
+				}
+			}()
+			out, err := plush.Render(string(b), plush.NewContext())
+			fmt.Printf("RETURNED %q %v\n", trunc(out, 200), err)
+		}()
+		return 0
+	}
+}
+
 func c04Run(c *Ctx, raw json.RawMessage) {
 	var kc kindCase
 	if err := json.Unmarshal(raw, &kc); err != nil {
@@ -244,6 +360,10 @@ func c04Run(c *Ctx, raw json.RawMessage) {
 		return
 	}
 	src := decodeChars(kc.Src)
+	if strings.HasPrefix(kc.Form, "iso:") {
+		c04Isolated(c, &kc, src)
+		return
+	}
 	ctx := plush.NewContext()
 	ctx.Set("partialFeeder", func(name string) (string, error) {
 		if name == "p" {
@@ -262,6 +382,21 @@ func c04Run(c *Ctx, raw json.RawMessage) {
 			ctx.Set(kv[0], v)
 		}
 	}
+	// a slice and the function that shortens it belong together: one pair per case
+	shared := &[]string{"p", "q", "r"}
+	for _, kv := range kc.Kinds {
+		switch kv[1] {
+		case "ptr_slice_shared":
+			ctx.Set(kv[0], shared)
+		case "func_shrink_shared":
+			ctx.Set(kv[0], func() string {
+				if len(*shared) > 0 {
+					*shared = (*shared)[:len(*shared)-1]
+				}
+				return ""
+			})
+		}
+	}
 	shape := kc.Form + "(" + strings.Join(names, ",") + ")"
 	c.Eval(shape)
 	c.Rule(strings.SplitN(kc.Form, ":", 2)[0])
@@ -273,6 +408,8 @@ func c04Run(c *Ctx, raw json.RawMessage) {
 	switch {
 	case o.Hang:
 		c.Fail("hang:"+kc.Form, fmt.Sprintf("%s with %v did not return", src, kc.Kinds), cas)
+	case o.Panic != "" && strings.HasPrefix(o.Site, "usercode:"):
+		c.Drift("panic raised by a function of the data itself (" + o.Site + ")")
 	case o.Panic != "":
 		c.Fail("panic@"+o.Site+":"+kc.Form, fmt.Sprintf("%s with %v panicked: %s (in %s)", src, kc.Kinds, trunc(o.Panic, 140), o.Site), cas)
 	}
